@@ -70,6 +70,11 @@ def rule_r1(p, res):
             r.violation(f, f.node, "%s does not compute the orphan-corrected mask (self._isolated_mask(mask)): vertices left without a triangle would survive" % f.short)
             continue
         iso_st, iso_name = iso[0]
+        # the masking work may only be skipped when the mask keeps every *vertex*
+        gs_iso = [(str(norm(t_)), pol) for t_, pol in g.guards(iso_st)]
+        skip = [t_ for t_, pol in gs_iso if "all(" in t_]
+        r.check(all(t_ in ("np.all(%s)" % mparam, "%s.all()" % mparam) for t_ in skip), f, iso_st, "%s skips the masking when `%s`: the fast path is only valid when the vertex mask itself is all "
+                "true; a mask that removes only vertices no triangle refers to would be ignored" % (f.short, skip), {"fast_path": skip})
         r.check(len(iso_st.value.args) == 1 and isinstance(iso_st.value.args[0], ast.Name) and iso_st.value.args[0].id == mparam, f, iso_st,
                 "the orphan correction must start from the caller's mask")
         # triangle list: mask then reindex
@@ -218,6 +223,16 @@ def rule_r4(p, res):
     nz = p.func("menpo.shape.mesh.normals._normalize")
     for f in (vn, fn, nz):
         r.instance(f)
+    # the face normal is the cross product of two edge *vectors* (differences from one common vertex): translation invariant
+    dfn = Defs(fn.node)
+    crosses = [k for k in calls_in(fn.node) if (dotted(k.func) or "") in ("np.cross", "numpy.cross")]
+    need(crosses, "C17.R4: compute_face_normals no longer uses np.cross")
+    okc = len(crosses) == 1 and len(crosses[0].args) >= 2
+    if okc:
+        a0, a1 = [expand(x, dfn) for x in crosses[0].args[:2]]
+        okc = isinstance(a0, ast.BinOp) and isinstance(a0.op, ast.Sub) and isinstance(a1, ast.BinOp) and isinstance(a1.op, ast.Sub) and norm(a0.right) == norm(a1.right) and norm(a0.left) != norm(a1.left)
+    r.check(okc, fn, crosses[0], "the face normal must be cross(b - a, c - a), the product of two edge vectors from one vertex: a sum of cross products of absolute positions is "
+            "algebraically equal but cancels catastrophically away from the origin (normals stop being perpendicular to their triangle)")
     tparam = vn.params[1]
     ats = [c for c in calls_in(vn.node) if (dotted(c.func) or "") in ("np.add.at", "numpy.add.at")]
     cols = []
@@ -493,4 +508,8 @@ WITNESSES += [
             "unique_edge_index = np.unique(edge_pairs, axis=0, return_index=True)[1]", kind="T"),
     Witness("C17.W14", "menpo/shape/mesh/base.py", "TriMesh.tri_normals", "return compute_face_normals(self.points, self.trilist)",
             "if getattr(self, '_tri_normals', None) is None:\n        self._tri_normals = compute_face_normals(self.points, self.trilist)\n    return self._tri_normals", rule="C17.R8", construct="tri_normals", note="seeded change R3-C17-C"),
+]
+
+WITNESSES += [
+    Witness("C17.W15", "menpo/shape/mesh/base.py", "TriMesh.from_mask", "if np.all(mask):", "if np.all(mask[self.trilist]):", rule="C17.R1", construct="TriMesh.from_mask", note="seeded change R4-C17-C"),
 ]
